@@ -437,9 +437,12 @@ class Spectrum:
             Wavelength units, as accepted by :func:`Unit`. Default is ``nm``.
 
         """
-        self.value = self.sample(wave, method=method, fill_value=fill_value,
-                                 waveunit=waveunit)
+        value = self.sample(wave, method=method, fill_value=fill_value,
+                            waveunit=waveunit)
+        # assign (and thereby validate) the new wavelengths before the new
+        # values so that a rejected grid leaves the spectrum untouched
         self.wave = wave
+        self.value = value
         self.waveunit = waveunit
 
     def bin(self, wave, interp_method='simps', ends='symmetric', preserve_power=True,
